@@ -79,12 +79,17 @@ def system(ctx, prop):
         acts = [(s["a"], s["p"], s["i"]) for s in h]
         restart = any(a == "up" and i == 2 for a, p, i in acts)
         return restart and any(a == "send" for a, p, i in acts)
+    flaps = [h for h in hs if any(s["a"] == "flap" for s in h)]
+    hs = [h for h in hs if h not in flaps]
     must = [h for h in hs if key(h)]
     rest = [h for h in hs if not key(h)]
     random.Random(ctx.seed * 17 + 3).shuffle(rest)
     random.Random(ctx.seed * 19 + 5).shuffle(must)
+    random.Random(ctx.seed * 23 + 7).shuffle(flaps)
     n = 400 if ctx.tier == "quick" else len(hs)
-    behs = (must[: n * 3 // 4] + rest)[:n]
+    nf = 60 if ctx.tier == "quick" else 600
+    ctx.cov["system_histories_with_receive_flapping"] = min(nf, len(flaps))
+    behs = flaps[:nf] + (must[: n * 3 // 4] + rest)[:n]
     reps = 1 if ctx.tier == "quick" else 3
     behs = behs * reps
     bpath = os.path.join(ctx.tmp, "ss_behaviours.json")
